@@ -5,11 +5,14 @@
                 | [1 id n]  connNum of backend id := n                            -> observation 0
                 | [2 id b]  SetAvail(b) on backend id                             -> observation 0
    output: list of the per-operation observations.
+         | [7 conf ops]   ONE BalanceRR, Balance(WlcSmooth) with slow start: conf = [[id w] ...], ops as in RunC01.v
+           ([0 k] picks, [1 conf] Update, [2 id b] SetAvail, [3 t] SetSlowStart, [4 id e] clock seam, [5 id] SetRestart,
+           [6 id n] connNum := n); output: per-op lists of picked ids (-1 = error)
          | [8 params subs ops]   BalanceGslb.Balance histories, same encoding and model as RunC03.v ([mode rmax cross],
            sub-clusters with backends, Balance / SetAvail / connNum operations; observation [code sub bid retry cross ecode]) *)
 From Coq Require Import List ZArith Bool.
 From Bfe Require Import lib.Val model.Swrr model.Wlc.
-From Bfe Require model.Gslb run.RunC03.
+From Bfe Require model.Gslb run.RunC03 run.RunC01.
 Import ListNotations.
 Open Scope Z_scope.
 
@@ -37,12 +40,27 @@ Definition dec_in (v : val) : option (list (Z * Z) * list wop) :=
 Definition dec8 (v : val) :=
   match v with VL [VZ 8; p; ss; ops] => RunC03.dec_in (VL [p; ss; ops]) | _ => None end.
 
+Definition dec7 (v : val) : option (list (Z * Z) * list op) :=
+  match v with
+  | VL [VZ 7; c; VL ops] =>
+    match RunC01.dec_conf c, all_some (map RunC01.dec_op ops) with
+    | Some conf, Some os => Some (conf, os)
+    | _, _ => None
+    end
+  | _ => None
+  end.
+Definition dec_out7 (v : val) : option (list (list Z)) :=
+  match v with VL l => all_some (map as_LZ l) | _ => None end.
+
 Definition run_C04 (i : val) : val :=
   match dec_in i with
   | Some (conf, ops) => vLZ (wrun (winit conf) ops)
   | None => match dec8 i with
             | Some (p, conf, ops) => VL (map RunC03.enc_obs (Gslb.grun p (Gslb.g_init conf) ops))
-            | None => VErr 0
+            | None => match dec7 i with
+                      | Some (conf, ops) => VL (map vLZ (run7 (0, init2 conf) [] ops))
+                      | None => VErr 0
+                      end
             end
   end.
 (* WlcSmooth: trace validation (the pick holds a maximal credit among the tied candidates, model state
@@ -53,7 +71,11 @@ Definition agree_C04 (i o : val) : bool :=
   | Some _, None => false
   | None, _ => match dec8 i, RunC03.dec_out o with
                | Some (p, conf, ops), Some os => Gslb.gcheck p (Gslb.g_init conf) ops os
-               | _, _ => false
+               | Some _, None => false
+               | None, _ => match dec7 i, dec_out7 o with
+                            | Some (conf, ops), Some obs => check7 (0, init2 conf) [] ops obs
+                            | _, _ => false
+                            end
                end
   end.
 (* the property: every pick is an eligible backend minimising connections/weight; error iff none eligible *)
@@ -64,7 +86,12 @@ Definition prop_C04 (i o : val) : bool :=
   (* through BalanceGslb: the returned backend is minimal (WLC) / the hash owner (sticky) in the reported sub-cluster *)
   | None, _ => match dec8 i, RunC03.dec_out o with
                | Some (p, conf, ops), Some os => Gslb.gspec8 p (Gslb.g_init conf) ops os
-               | _, _ => false
+               | Some _, None => false
+               (* slow start: minimal w.r.t. the CURRENT (ramped) weight *)
+               | None, _ => match dec7 i, dec_out7 o with
+                            | Some (conf, ops), Some obs => spec7 (0, init2 conf) [] ops obs
+                            | _, _ => false
+                            end
                end
   end.
 Definition kf_C04 (i : val) : Z := 0.
